@@ -375,6 +375,10 @@ def replay(behaviours, c, tag, seed):
     os.makedirs(d)
     trace = os.path.join(d, "trace.ndjson")
     open(trace, "w").close()
+    if c.get("unwind"):
+        # in every third behaviour the scopes, local spans and collectors are released by a (caught) panic
+        behaviours = [dict(b, steps=[dict(st, unw=True) if (i % 3 == 1 and st.get("op") in ("dropg", "lexit", "lcdrop")) else st for st in b["steps"]])
+                      for i, b in enumerate(behaviours)]
     if c.get("probe_ctx"):
         # a context query after every call: pure, so it changes nothing, and Abs checks each answer
         behaviours = [dict(b, steps=probe(b["steps"], c.get("probe_spans", False))) for b in behaviours]
